@@ -349,6 +349,11 @@ fn eval_builtin_incstr(
         }
     };
 
+    if bigint_size == 0 && query.args.len() == 1
+    {
+        return Ok(expr::Value::make_integer(bigint));
+    }
+
     if start.saturating_mul(bits_per_char) >= bigint_size
     {
         query.report.error_span(
